@@ -36,6 +36,10 @@ fn lit_to_syms(mut b: &[u8]) -> Option<Vec<u32>> {
     Some(out)
 }
 
+thread_local! {
+    static ASCII_ONLY: std::cell::Cell<bool> = std::cell::Cell::new(false);
+}
+
 fn hir_to_ast(h: &Hir) -> Option<Value> {
     Some(match h.kind() {
         HirKind::Empty => json!({"k":"eps"}),
@@ -66,8 +70,9 @@ fn hir_to_ast(h: &Hir) -> Option<Value> {
                     s.push(*sym);
                 }
             }
-            // byte classes that can match a lone byte of a multi-byte symbol are outside the symbol space
-            if cls.ranges().iter().any(|r| r.end() >= 0x80 && r.start() < 0xFF) {
+            // byte classes that can match a lone byte of a multi-byte symbol are outside the symbol space, unless the
+            // job says that multi-byte symbols do not occur (byte-mode patterns, "ascii_only")
+            if !ASCII_ONLY.with(|a| a.get()) && cls.ranges().iter().any(|r| r.end() >= 0x80 && r.start() < 0xFF) {
                 return None;
             }
             json!({"k":"set","s":s})
@@ -157,6 +162,7 @@ fn main() {
         let pats: Vec<String> =
             v["patterns"].as_array().map(|a| a.iter().map(|p| p.as_str().unwrap_or("").to_string()).collect()).unwrap_or_default();
         let b = |k: &str| v[k].as_bool().unwrap_or(false);
+        ASCII_ONLY.with(|a| a.set(b("ascii_only")));
         let mut mb = RegexMatcherBuilder::new();
         mb.multi_line(true).octal(false).fixed_strings(b("fixed"));
         if b("ci") {
